@@ -20,4 +20,11 @@ for m in muts:
     r = sh(["./check", prop, "quick"], cwd="/verif", env=ENV, timeout=1200)
     nviol = sum(1 for l in r.stdout.splitlines() if l.startswith("VIOLATION"))
     print(m, prop, "exit", r.returncode, "violations", nviol, flush=True)
+    # Recorded in the matrix that SENSITIVITY.md is generated from.
+    mp = "/verif/seeded/matrix.json"
+    mx = json.load(open(mp)) if os.path.exists(mp) else {}
+    row = mx.get(m) if isinstance(mx.get(m), dict) and "error" not in mx.get(m) else {}
+    row[prop] = {"exit": r.returncode, "violations": nviol}
+    mx[m] = row
+    json.dump(mx, open(mp, "w"), indent=1)
 sh(["git", "checkout", "--", "."], cwd=WT)
